@@ -260,6 +260,40 @@ def r6_index_forwarding(ctx):
     r3_self_array_writes(ctx, IO_TABLE_MODULES)
 
 
+def r7_late_bound_constants(ctx, modules=None):
+    """Format constants (DELIMITER, COMMENT, n_lines_per_entry, dataclass, ...) are class attributes that subclasses override.  A method of the base class must
+    read them through `cls` / `self`; naming the base class (`DelimitedBuffer.DELIMITER`) freezes the base value for every subclass (a comma-separated
+    buffer class would be written with tabs on the lazy path, which joins columns in the base class)."""
+    ix = ctx.index
+    from .c20 import IO_TABLE_MODULES
+    mods = set(modules or IO_TABLE_MODULES) | {"bionumpy.io.wig", "bionumpy.io.pairs", "bionumpy.io.gfa", "bionumpy.io.dump_csv"}
+    n = 0
+    for ci in ix.all_classes():
+        if ci.module.name not in mods:
+            continue
+        subs = ix.subclasses(ci, strict=True)
+        if not subs:
+            continue
+        base_attrs = set()
+        for b in ix.mro(ci):
+            base_attrs |= set(b.attrs)
+        over = {}
+        for sc in subs:
+            for a in sc.attrs:
+                if a in base_attrs:
+                    over.setdefault(a, []).append(sc.name)
+        if not over:
+            continue
+        for mname, fi in ci.methods.items():
+            n += 1
+            bad = [x for x in ast.walk(fi.node) if isinstance(x, ast.Attribute) and isinstance(x.value, ast.Name) and x.value.id == ci.name and x.attr in over and isinstance(x.ctx, ast.Load)]
+            for x in bad:
+                ctx.ob(fi.where, f"`{ci.name}.{x.attr}` is overridden by subclasses ({', '.join(sorted(over[x.attr])[:4])}): the method reads it through cls / self, not through the "
+                       "base class's name", False, u(x), key=f"C05-R7|frozen-constant|{ci.module.name}|{ci.name}.{mname}|{x.attr}")
+    ctx.floor("methods of format classes with overridden constants examined", n, 40)
+    ctx.ob("bionumpy/io", f"{n} methods of base format classes examined: overridable constants are late-bound", True, "", key="C05-R7|scan")
+
+
 from ..through_time import make_rule as _mk_tt
 _through_time = _mk_tt("C05")
 
@@ -271,4 +305,5 @@ RULES = [
     ("C05-R5", r5_context_pairing),
     ("C05-R6", r6_index_forwarding),
     ("C05-T1", _through_time),
+    ("C05-R7", r7_late_bound_constants),
 ]
